@@ -140,6 +140,7 @@ def run(chk):
     chk.assumptions = ["`let a = <expression mentioning a>` is not generated (the statement does not say which a the initialiser sees)",
                        "a closure's writes to a captured variable go to its own copy and persist between its calls"]
     chk.floor = 1200
+    chk.rule += '; plus functions created in a block (7 block kinds, top level and inside a function) and called after 0-4 later bindings, closures with blocks between a write and a read of a captured variable, self-named parameters, double bindings'
     n = 3000 if quick else 120000
     jobs = []
     unspec = {}
